@@ -21,6 +21,13 @@
 #include "xrl_ops.h"
 #include "xrayglob.h"
 
+/* The harness talks to the check on a DUPLICATE of the original standard output (`proto`); file descriptor 1 itself is pointed at a
+   scratch file, so that anything the library writes to standard output is seen: a call after which that file has grown gets
+   ` STDOUT+<bytes>` appended to its result (standard streams are process-global state; deprecation diagnostics go to stderr). */
+static FILE *proto = NULL; static off_t stdout_seen = 0;
+static long stray_stdout(void) { fflush(stdout); off_t n = lseek(1, 0, SEEK_CUR); long d = (long)(n - stdout_seen); stdout_seen = n; return d; }
+#define printf(...) fprintf(proto, __VA_ARGS__)
+
 typedef struct { unsigned char *a; size_t n; } region;
 static region *regs; static int nregs; static unsigned char *snap; static size_t total;
 
@@ -54,7 +61,7 @@ static void directive(const char *d, retained **keep) {
   if (!strcmp(d, "!state")) do_state();
   else if (!strcmp(d, "!snapshot")) { size_t off = 0; free(snap); snap = malloc(total); for (int i = 0; i < nregs; i++) { raw_copy(snap + off, regs[i].a, regs[i].n); off += regs[i].n; } printf("snapshot %zu bytes %d regions\n", total, nregs); }
   else if (!strcmp(d, "!diff")) diff_regions();
-  else if (!strcmp(d, "!end")) { static char b[1 << 16]; obuf o = { b, 0, sizeof b }; b[0] = 0; retained_check(*keep, &o); *keep = NULL; fputs(b, stdout); }
+  else if (!strcmp(d, "!end")) { static char b[1 << 16]; obuf o = { b, 0, sizeof b }; b[0] = 0; retained_check(*keep, &o); *keep = NULL; fputs(b, proto); }
   else printf("bad-directive %s\n", d);
 }
 
@@ -66,13 +73,14 @@ int main(int argc, char **argv) {
   FILE *f = fopen(argv[2], "r"); if (!f) { perror(argv[2]); return 2; }
   static char line[1 << 16], copy[1 << 16], out[1 << 18];
   char *tok[64]; retained *keep = NULL; int idx = 0;
-  setvbuf(stdout, NULL, _IOLBF, 0);
+  { int pfd = dup(1); proto = fdopen(pfd, "w"); setvbuf(proto, NULL, _IOLBF, 0);
+    FILE *tf = tmpfile(); if (tf) { dup2(fileno(tf), 1); stdout_seen = 0; } }
   while (fgets(line, sizeof line, f)) {
     size_t L = strlen(line); while (L && (line[L - 1] == '\n' || line[L - 1] == '\r')) line[--L] = 0;
     if (!L || line[0] == '#') continue;
     if (line[0] == '!') {
       if (fresh && strcmp(line, "!state")) continue;
-      if (fresh) { fflush(stdout); pid_t p = fork(); if (p == 0) { directive(line, &keep); fflush(stdout); _exit(0); } int st; waitpid(p, &st, 0); }
+      if (fresh) { fflush(proto); pid_t p = fork(); if (p == 0) { directive(line, &keep); fflush(proto); _exit(0); } int st; waitpid(p, &st, 0); }
       else directive(line, &keep);
       continue;
     }
@@ -81,14 +89,16 @@ int main(int argc, char **argv) {
     if (!nt) continue;
     obuf o = { out, 0, sizeof out }; out[0] = 0;
     if (fresh) {
-      fflush(stdout);
+      fflush(proto);
       pid_t p = fork();
-      if (p == 0) { int ok = xrl_op(&o, tok, nt, NULL); printf("R %d %s\n", idx, ok ? out : "bad-op"); fflush(stdout); _exit(0); }
+      if (p == 0) { int ok = xrl_op(&o, tok, nt, NULL); long sd = stray_stdout(); if (sd) { char x[48]; snprintf(x, sizeof x, " STDOUT+%ld", sd); strncat(out, x, sizeof out - strlen(out) - 1); }
+                    printf("R %d %s\n", idx, ok ? out : "bad-op"); fflush(proto); _exit(0); }
       int st; waitpid(p, &st, 0);
       if (!WIFEXITED(st) || WEXITSTATUS(st) != 0) printf("R %d died %d\n", idx, st);
     } else {
       printf("B %d\n", idx);               /* begin marker: a crash is attributed to this op */
-      int ok = xrl_op(&o, tok, nt, &keep); printf("R %d %s\n", idx, ok ? out : "bad-op");
+      int ok = xrl_op(&o, tok, nt, &keep); long sd = stray_stdout(); if (sd) { char x[48]; snprintf(x, sizeof x, " STDOUT+%ld", sd); strncat(out, x, sizeof out - strlen(out) - 1); }
+      printf("R %d %s\n", idx, ok ? out : "bad-op");
     }
     idx++;
   }
